@@ -77,7 +77,10 @@ PLAN_QUICK = [('W1', 0, 'all', 1, 1), ('W1', 1, 'all', 1, 2), ('W1', 2, 'none', 
               ('W3', 0, 'all', 1, 4), ('W3', 1, 'none', 1, 12), ('W4', 0, 'all', 1, 4), ('W4', 1, 'none', 1, 12), ('W5', 0, 'none', 1, 24), ('W1', 0, 'none', 2, 8), ('W2', 0, 'none', 2, 12),
               ('W6', 0, 'all', 1, 1), ('W6', 1, 'all', 1, 1), ('W6', 2, 'all', 1, 1), ('W7', 0, 'all', 1, 4), ('W7', 1, 'none', 1, 12)]
 PLAN_THOROUGH = [('W1', 0, 'all', 2, 4), ('W1', 1, 'all', 2, 16), ('W1', 2, 'none', 2, 32), ('W2', 0, 'all', 2, 8), ('W2', 1, 'none', 2, 32),
-                 ('W3', 0, 'none', 2, 64), ('W4', 0, 'none', 2, 64), ('W7', 0, 'none', 2, 64),
+                 ('W3', 0, 'all', 2, 64), ('W4', 0, 'all', 2, 64), ('W7', 0, 'all', 2, 64),
+                 # three preemptions on the one-producer workloads, two on everything else incl. the three-producer one
+                 ('W1', 0, 'none', 3, 256), ('W1', 1, 'none', 3, 512), ('W2', 0, 'none', 3, 256),
+                 ('W3', 1, 'none', 2, 512), ('W4', 1, 'none', 2, 512), ('W7', 1, 'none', 2, 512), ('W5', 0, 'none', 2, 1024),
                  ('W3', 0, 'all', 1, 2), ('W3', 1, 'all', 1, 6), ('W3', 2, 'none', 1, 12), ('W4', 0, 'all', 1, 2), ('W4', 1, 'all', 1, 6),
                  ('W4', 2, 'none', 1, 12), ('W5', 0, 'all', 1, 12), ('W5', 1, 'none', 1, 48), ('W6', 0, 'all', 2, 1), ('W6', 2, 'all', 2, 1),
                  ('W7', 0, 'all', 1, 2), ('W7', 1, 'all', 1, 6), ('W7', 2, 'none', 1, 12), ('W2', 2, 'all', 1, 2)]
